@@ -827,6 +827,72 @@ let main_kvs file =
   Printf.printf "DONE calls=%d badcalls=%d puts=%d images=%d badimages=%d\n" !nq !nbadq !nput !nimg !nbadimg
 
 
+(* concurrent histories of the simple server: a sequential order respecting real time under which the extracted
+   specification gives exactly the observed replies *)
+let main_simpleconc file =
+  let ic = open_in file in
+  let cur_s = ref Extracted.simple_empty_s in
+  let q = ref None and phase = ref 0 and curh = ref None in
+  let hist = ref [] in
+  let parse_q proc h off cnt sz data =
+    let inum = simple_inum_of_handle (nlist_of_hex h) in
+    match proc with
+    | "getattr" -> SGetattr inum
+    | "setattr" -> SSetattr (inum, if sz = "-" then None else Some (n_of_string sz))
+    | "read" -> SRead (inum, n_of_string off, n_of_string cnt)
+    | _ -> SWrite (inum, n_of_string off, n_of_string cnt, nlist_of_hex data) in
+  let parse_p proc code isdir size count eof data =
+    if code <> "0" then SErr else
+      (match proc with
+       | "getattr" -> SAttr (isdir = "1", n_of_string size)
+       | "setattr" -> SOk
+       | "read" -> SData (nlist_of_hex data, eof = "1")
+       | _ -> SWritten (n_of_string count)) in
+  let npanic = ref 0 in
+  (try while true do
+      let line = input_line ic in
+      match split_on ' ' line with
+      | "SI" :: _ -> cur_s := Extracted.simple_empty_s
+      | "M" :: "conc-begin" :: _ -> phase := 1
+      | "M" :: "conc-end" :: _ -> phase := 2
+      | "H" :: c :: i :: r :: _ -> curh := Some (int_of_string c, int_of_string i, int_of_string r)
+      | "Q" :: _ :: proc :: h :: off :: cnt :: sz :: data :: _ -> q := Some (proc, parse_q proc h off cnt sz data)
+      | "P" :: code :: isdir :: size :: count :: eof :: data :: _ ->
+        (match !q with
+         | Some (proc, c) ->
+           let obs = parse_p proc code isdir size count eof data in
+           if !phase = 0 then (let (s', _) = sstep !cur_s c in cur_s := s')
+           else (match !curh with Some (cl, i, r) -> hist := (cl, i, r, proc, c, obs) :: !hist | None -> ())
+         | None -> ());
+        q := None
+      | "X" :: _ -> incr npanic
+      | _ -> ()
+    done with End_of_file -> ());
+  let ops = Array.of_list (List.rev !hist) in
+  let n = Array.length ops in
+  let nodes = ref 0 and found = ref false and deepest = ref 0 and stuck = ref "" in
+  let budget = 400000 in
+  let rec search s donev k =
+    if !found || !nodes > budget then () else begin
+      incr nodes;
+      if k = n then found := true else begin
+        let minret = ref max_int in
+        Array.iteri (fun i (_, _, r, _, _, _) -> if not donev.(i) && r < !minret then minret := r) ops;
+        Array.iteri (fun i (cl, inv, _, proc, c, obs) ->
+            if not !found && not donev.(i) && inv < !minret then begin
+              let (s', rs) = sstep s c in
+              if rs = obs then (donev.(i) <- true; search s' donev (k + 1); donev.(i) <- false)
+              else if k >= !deepest then (deepest := k; stuck := Printf.sprintf "client=%d:%s" cl proc)
+            end) ops
+      end
+    end in
+  if !npanic > 0 then Printf.printf "N crash BAD panics=%d\n" !npanic;
+  search !cur_s (Array.make n false) 0;
+  if !found then Printf.printf "N lin OK ops=%d nodes=%d\n" n !nodes
+  else if !nodes > budget then Printf.printf "N lin UNKNOWN ops=%d nodes=%d\n" n !nodes
+  else Printf.printf "N lin BAD no-sequential-order-explains-the-history ops=%d nodes=%d deepest=%d stuck-at=%s\n" n !nodes !deepest !stuck;
+  Printf.printf "DONE ops=%d\n" n
+
 (* ---------- XDR (C16): Go-encoded values and malformed byte strings against the extracted codec ---------- *)
 let ascii_of_char c =
   let n = Char.code c in
@@ -1009,6 +1075,7 @@ let () =
   | _ :: "conc" :: file :: _ -> main_conc file
   | _ :: "xdr" :: file :: _ -> main_xdr file
   | _ :: "simple" :: file :: _ -> main_simple file
+  | _ :: "simpleconc" :: file :: _ -> main_simpleconc file
   | _ :: "kvs" :: file :: _ -> main_kvs file
   | _ :: "seq" :: file :: rest -> main_seq file (rest <> ["noabs"])
   | _ :: file :: rest -> main_seq file (rest <> ["noabs"])
